@@ -8,6 +8,8 @@
     spec/DaneTrace.tla evaluates Prop on what the code answered.
 """
 import json
+import os
+import shutil
 
 import vlib
 import vtable
@@ -32,9 +34,19 @@ POSTCONDITION Post
 """
 
 
+EXPORTS = ("internal/target/remote/verif_export_dane.go", "internal/target/remote/verif_export_danerounds.go")
+
+
 def nontrivial(row):
-    i = row["in"]
-    return i["lookup"] != "ok" or any(c != "UN" for c in row["cls"]) or (i["recs"] and not i["hs"])
+    rounds = row["in"]["rounds"]
+    if len(rounds) > 1:
+        return True
+    i = rounds[0]
+    return i["lookup"] != "ok" or any(c != "UN" for c in row["cls"][0]) or bool(i["recs"] and not i["hs"])
+
+
+def pick(o):
+    return [{k: r[k] for k in ("auth", "refuse", "temp")} for r in o["rounds"]]
 
 
 def run(ctx, replay):
@@ -54,10 +66,17 @@ def run(ctx, replay):
         ctx.cov["states"] = r["distinct"]
         ctx.cov["transitions"] = r["generated"]
         ctx.cov["model_depth"] = r["depth"]
-        ctx.log("TLC: %d input rows, Prop(in, Rule(in)) and RuleExact hold on all, %.1fs" % (r["distinct"], r["wall"]))
+        ctx.log("TLC: %d input rows, PropH(in, RuleH(in)) and RuleExact hold on all, %.1fs" % (r["distinct"], r["wall"]))
     by_id = {row["id"]: row for row in rows}
 
     # ---- (B) the real code on every row -------------------------------------------
+    # a scratch tree (VERIF_REPO) made from a commit lacks export shims that are not committed yet:
+    # they are add-only, build-tag guarded files, so the ones of /repo are put next to the code under test
+    if ctx.repo != "/repo":
+        for rel in EXPORTS:
+            src, dst = os.path.join("/repo", rel), os.path.join(ctx.repo, rel)
+            if os.path.exists(src) and not os.path.exists(dst):
+                shutil.copy(src, dst)
     binary = ctx.build_harness("danecheck")
     items = [{"id": row["id"], "in": row["in"]} for row in rows]
     events = ctx.run_shards(binary, items, timeout=1200)
@@ -71,23 +90,33 @@ def run(ctx, replay):
     # binding self-test: forged outputs must be rejected by TLC
     selftest = {}
     if not replay:
-        def forge(t, pred, **chg):
-            # built from the row and the rule's output only: independent of what the code did
+        def forge(t, pred, k, **chg):
+            # built from the row and the rule's output only: independent of what the code did;
+            # round k (from the end) of the history is altered
             for e in events:
-                exp = by_id[e["t"]]["exp"]
-                if pred(by_id[e["t"]], exp):
+                row = by_id[e["t"]]
+                if pred(row):
                     f = json.loads(json.dumps(e))
                     f["t"] = t
-                    f["out"].update(exp)
-                    f["out"].update(chg)
+                    for j, x in enumerate(row["exp"]):
+                        f["out"]["rounds"][j].update(x)
+                    f["out"]["rounds"][k].update(chg)
                     return f
             return None
+        one = lambda row: len(row["in"]["rounds"]) == 1
+        r0 = lambda row: row["in"]["rounds"][0]
         forged = [
-            (900001, "refusal dropped", forge(900001, lambda row, x: x["refuse"] and row["in"]["hs"], refuse=False)),
-            (900002, "authentication invented", forge(900002, lambda row, x: not x["auth"] and not x["refuse"]
-                                                      and row["in"]["hs"], auth=True)),
-            (900003, "refusal without usable records", forge(900003, lambda row, x: not x["auth"] and not x["refuse"]
-                                                             and row["in"]["hs"] and row["in"]["recs"], refuse=True)),
+            (900001, "refusal dropped", forge(900001, lambda row: one(row) and row["exp"][0]["refuse"] and r0(row)["hs"],
+                                              0, refuse=False)),
+            (900002, "authentication invented", forge(900002, lambda row: one(row) and not row["exp"][0]["auth"]
+                                                      and not row["exp"][0]["refuse"] and r0(row)["hs"], 0, auth=True)),
+            (900003, "refusal without usable records", forge(900003, lambda row: one(row) and not row["exp"][0]["auth"]
+                                                             and not row["exp"][0]["refuse"] and r0(row)["hs"]
+                                                             and r0(row)["recs"], 0, refuse=True)),
+            # a later round answered with the first MX's verdict
+            (900004, "second MX judged by the first MX's records", forge(
+                900004, lambda row: row["in"]["mode"] == "seq" and len(row["in"]["rounds"]) == 2
+                and row["exp"][0]["auth"] and row["exp"][1]["refuse"], 1, auth=True, refuse=False)),
         ]
         for t, what, f in forged:
             if f is None:
@@ -111,42 +140,51 @@ def run(ctx, replay):
         if v["viol"]:
             for p in v["viol"]:
                 preds[p] = preds.get(p, 0) + 1
-            what = "DANE answer violates %s: in=%s out=%s" % (",".join(sorted(v["viol"])),
-                                                             json.dumps(row["in"], sort_keys=True),
-                                                             json.dumps({k: ev["out"][k] for k in ("auth", "refuse", "temp")}))
+            what = "DANE answer violates %s in round(s) %s: in=%s out=%s" % (
+                ",".join(sorted(v["viol"])), sorted(v.get("rounds", [])),
+                json.dumps(row["in"], sort_keys=True), json.dumps(pick(ev["out"])))
             ctx.violation(what, {"property": "C13", "row": row, "out": ev["out"], "violated": sorted(v["viol"]),
+                                 "rounds": sorted(v.get("rounds", [])),
                                  "how": "bin/check C13 --replay <this file>"})
         else:
             drift += 1
             if drift <= 10:
-                print("DRIFT property=C13 row=%d in=%s out=%s expected=%s" % (
-                    t, json.dumps(row["in"], sort_keys=True),
-                    json.dumps({k: ev["out"][k] for k in ("auth", "refuse", "temp", "panic")}),
-                    json.dumps(row.get("exp"))))
+                print("DRIFT property=C13 row=%d rounds=%s in=%s out=%s expected=%s" % (
+                    t, sorted(v.get("rounds", [])), json.dumps(row["in"], sort_keys=True),
+                    json.dumps(pick(ev["out"])), json.dumps(row.get("exp"))))
     ctx.cov["traces_validated_against_impl"] = accepted
     ctx.cov["drift_traces"] = drift
     ctx.cov["evaluations"] = len(rows)
     ctx.cov["distinct_nontrivial"] = sum(1 for row in rows if nontrivial(row))
-    ctx.cov["discovery_rows"] = sum(1 for row in rows if row["in"]["lookup"] == "disc")
+    ctx.cov["discovery_rows"] = sum(1 for row in rows if row["in"]["rounds"][0]["lookup"] == "disc")
+    ctx.cov["history_rows"] = {"seq2": sum(1 for row in rows if row["in"]["mode"] == "seq" and len(row["in"]["rounds"]) == 2),
+                               "seq3": sum(1 for row in rows if row["in"]["mode"] == "seq" and len(row["in"]["rounds"]) == 3),
+                               "overlap2": sum(1 for row in rows if row["in"]["mode"] == "overlap")}
     ctx.cov["rule"] = ("rows = states of Dane.tla: every multiset of <=4 record classes (EE/TA/unusable x data "
                        "matching leaf/intermediate/root/nothing) x 5 chains x handshake, concretised over all raw "
                        "usage/selector/matching-type values by rotation (salts), every single raw record, lookup "
-                       "outcomes and the discovery table; distinct by construction (TLC states); non-trivial = a "
-                       "usable record, or records without a handshake, or a lookup/discovery outcome other than ok")
+                       "outcomes, the discovery table, and histories of 2 and 3 MX candidates (9 situations each) served "
+                       "by one delivery object, in order and with an abandoned first attempt whose lookup answers late; "
+                       "distinct by construction (TLC states); non-trivial = a history of several MXs, a usable record, "
+                       "records without a handshake, or a lookup/discovery outcome other than ok")
     ctx.cov["violated_predicates"] = preds
     ctx.cov["exhaustive"] = True
-    raw_both = sum(1 for e in ev_by_t.values() if e["out"].get("override") and e["out"].get("rawErr"))
+    raw_both = sum(1 for e in ev_by_t.values() for r in e["out"]["rounds"] if r.get("override") and r.get("rawErr"))
     ctx.cov["verifyDANE_override_true_with_error"] = raw_both
     if raw_both:
         ctx.notes.append("OBSERVATION: verifyDANE returned overridePKIX=true together with an error on %d rows "
                          "(EE records only, none matching); CheckConn refuses, so no authentication results" % raw_both)
-    for row in rows[:2] + rows[len(rows) // 2: len(rows) // 2 + 2]:
+    hist = [row for row in rows if len(row["in"]["rounds"]) > 1]
+    for row in rows[:1] + rows[len(rows) // 2: len(rows) // 2 + 2] + hist[:1] + hist[-1:]:
         ctx.cov["samples"].append({"row": row, "out": ev_by_t[row["id"]]["out"]})
     ctx.assumptions += [
         "certificate chains are generated by the harness (ECDSA P-256, crypto/x509); association data of "
         "out-of-range selector/matching-type records is that of the nearest defined combination",
         "without a handshake the connection state carries no peer certificates",
-        "discovery rows use the repo's own mock DNS server (go-mockdns) over loopback UDP",
+        "discovery rows and histories use the repo's own mock DNS server (go-mockdns) over loopback UDP behind a gate "
+        "that can hold the answers about one MX; the order of concurrent lookups is decided by that gate and observed "
+        "on the lookup-result holders (export shim), never by a timer",
+        "every MX of a history has its own name (mx<k>.example.invalid), leaf certificate and TLSA RRset",
         "TLC 1.8.0, CommunityModules Json",
     ]
 
@@ -155,11 +193,13 @@ META = {
     "engine": "danecheck",
     "level": "model_checking",
     "technique": "TLA+ spec Dane.tla (property predicates + RFC 7672 rule) enumerated by TLC; every row run through "
-                 "the real verifyDANE/daneDelivery.CheckConn/discoverTLSA with generated certificate chains; "
+                 "the real verifyDANE/daneDelivery.PrepareConn/CheckConn/discoverTLSA with generated certificate chains, "
+                 "histories of several MXs on one delivery object; "
                  "recorded answers evaluated by TLC (DaneTrace.tla)",
     "text": "TLC enumerates the whole input table of Dane.tla (all multisets of up to 4 TLSA record classes x 5 "
             "certificate chains x handshake flag, every raw usage/selector/matching-type value incl. out-of-range, "
-            "lookup and discovery outcomes), checks the property predicates on the documented rule for every row, "
+            "lookup and discovery outcomes, histories of 2-3 MX candidates on one delivery object incl. an abandoned "
+            "attempt whose lookup answers late), checks the property predicates on the documented rule for every row, "
             "and evaluates the same predicates on the answer of the real code for every row (both tiers run all "
             "rows; thorough uses 6 concretisation salts).",
     "note": "X.509 path building itself is Go's crypto/x509 (trusted); the model abstracts a chain to which "
